@@ -258,3 +258,91 @@ func runC01orch(rng *rand.Rand, ids []uint16, t int, silent bool, idx int, scale
 	// pre-signing synchronisation). The orchestrated-signing clause is decided with the EdDSA adapter (hbinance).
 	return "", checked, c.Net.OrderHash()
 }
+
+// ---- C13 (built-in schemes): large identifiers, key material re-created only from its serialised form ----
+
+func unitC13crypto(e common.Env, p *common.Part) {
+	p.Rule = "BLS and PS key generations (directly wired) with party identifiers along the byte boundaries and across the 16-bit range (0, 255, 256, 257, 511, 512, 32768, 65279, 65280, 65534, 65535, PRNG); afterwards every signer, verifier and prover is re-created ONLY from the serialised stored data / ThresholdPK() bytes and every subset of size >= t must sign and verify; distinct key = (scheme, id tuple); non-trivial when the tuple contains an identifier >= 256"
+	sets := [][]uint16{{0, 256, 65535}, {1, 255, 257}, {511, 512, 32768}, {65279, 65280, 65534}, {2, 300, 40000, 65535}, {255, 256}, {0, 65535}}
+	rng := e.Rng("c13crypto")
+	for i := 0; i < e.Pick(6, 40); i++ {
+		n := 2 + rng.Intn(4)
+		used := map[uint16]bool{}
+		var s []uint16
+		for len(s) < n {
+			v := uint16(rng.Intn(65536))
+			if !used[v] {
+				used[v] = true
+				s = append(s, v)
+			}
+		}
+		sort.Slice(s, func(a, b int) bool { return s[a] < s[b] })
+		sets = append(sets, s)
+	}
+	idx := 0
+	for _, ids := range sets {
+		for _, sch := range []scheme{{Name: "bls"}, {Name: "ps", MsgLen: 2}} {
+			idx++
+			if !e.Mine(idx) || p.ViolationCount() >= 3 {
+				continue
+			}
+			t := 2
+			if len(ids) > 3 {
+				t = 3
+			}
+			key := fmt.Sprintf("%s ids=%v t=%d", sch.Name, ids, t)
+			p.Begin(key)
+			r := e.Rng("c13c", idx)
+			d := newDrun(sch, ids, t, r)
+			ctx, cancel := context.WithTimeout(context.Background(), 60*time.Second)
+			ok := d.run(ctx, cancel, ids, 60*time.Second)
+			viol := ""
+			if len(d.panics) > 0 {
+				viol = d.panics[0]
+			} else if !ok {
+				viol = "KeyGen did not return"
+			}
+			for _, id := range ids {
+				if viol == "" && d.errs[id] != nil {
+					viol = fmt.Sprintf("key generation failed at party %d: %v", id, d.errs[id])
+				}
+			}
+			if viol == "" {
+				viol = consistentPublicMaterial(ids, d.outs)
+			}
+			checked := 0
+			if viol == "" {
+				for _, sub := range subsets(ids, t) {
+					order := append([]uint16{}, sub...)
+					r.Shuffle(len(order), func(a, b int) { order[a], order[b] = order[b], order[a] })
+					var err error
+					if sch.Name == "bls" {
+						err = jointBLS(ids, t, d.outs, order, []byte("c13-digest-0123456789abcdef012345"), ids[r.Intn(len(ids))])
+					} else {
+						err = jointPS(ids, t, sch.MsgLen, d.outs, order, [][]byte{[]byte("a"), []byte("b")}, ids[r.Intn(len(ids))])
+					}
+					if err != nil {
+						viol = fmt.Sprintf("signers %v (re-created from serialised data only): %v", order, err)
+						break
+					}
+					checked++
+				}
+			}
+			large := false
+			for _, v := range ids {
+				large = large || v >= 256
+			}
+			p.Case(key, large)
+			p.Count("subsets_verified", int64(checked))
+			if large {
+				p.Count("sessions_with_large_ids", 1)
+			}
+			if viol != "" {
+				p.Violate("large-ids/"+sch.Name, key+": "+viol, map[string]interface{}{"ids": ids, "scheme": sch.Name})
+			}
+			if idx%5 == 0 {
+				p.Sample(map[string]interface{}{"scheme": sch.Name, "ids": ids, "subsets_verified": checked})
+			}
+		}
+	}
+}
